@@ -318,8 +318,22 @@ class Mini:
                 for n_, v in zip(names, args):
                     local[n_] = v
                 return interp.ev(fn.body, local)
-            bound = dict(zip(names, args))
-            bound.update(kwargs)
+            bound = {}
+            defaults = fn.args.defaults
+            for a_, d_ in zip(fn.args.args[len(fn.args.args) - len(defaults):], defaults):
+                bound[a_.arg] = interp.ev(d_, dict(env))
+            for a_, d_ in zip(fn.args.kwonlyargs, fn.args.kw_defaults):
+                if d_ is not None:
+                    bound[a_.arg] = interp.ev(d_, dict(env))
+            bound.update(zip(names, args))
+            if fn.args.vararg is not None:
+                bound[fn.args.vararg.arg] = tuple(args[len(names):])
+            known = set(names) | {a_.arg for a_ in fn.args.kwonlyargs}
+            if fn.args.kwarg is not None:
+                bound[fn.args.kwarg.arg] = {k: v for k, v in kwargs.items() if k not in known}
+                bound.update({k: v for k, v in kwargs.items() if k in known})
+            else:
+                bound.update(kwargs)
             sub = dict(env)
             try:
                 sub.update(bound)
